@@ -125,7 +125,8 @@ fn conv_raw_to_proto(src: &mut Src) -> Result<(String, usize), String> {
     Ok((t, keys))
 }
 fn conv_gds_to_raw(src: &mut Src) -> Result<(String, usize), String> {
-    let m = crate::props::c06::gen_lib(src);
+    let mut m = crate::props::c06::gen_lib(src);
+    crate::props::c06::add_conflicting_labels(src, &mut m);
     let g = crate::props::c06::to_gds(&m);
     let nstructs = g.structs.len();
     let t = match raw::Library::from_gds(&g, None) {
